@@ -405,7 +405,8 @@ NPFUN = {'cos', 'sin', 'tan', 'abs', 'absolute', 'exp', 'sqrt', 'angle', 'conj',
          'radians', 'deg2rad', 'degrees', 'rad2deg', 'real', 'imag', 'sum', 'array', 'vectorize', 'ones', 'zeros', 'arange', 'isnan',
          'log10', 'phase', 'any', 'all', 'size', 'logical_not', 'sign', 'arctan2', 'hypot', 'asarray', 'float64', 'complex128'}
 SYN = {'conjugate': 'conj', 'deg2rad': 'radians', 'rad2deg': 'degrees', 'phase': 'angle', 'absolute': 'abs', 'asarray': 'array',
-       'fabs': 'abs', 'float64': 'float', 'complex128': 'float', 'identity': 'eye', 'rint': 'round', 'around': 'round', 'round_': 'round', 'remainder': 'mod'}
+       'fabs': 'abs', 'float64': 'float', 'complex128': 'float', 'identity': 'eye', 'rint': 'round', 'around': 'round', 'round_': 'round', 'remainder': 'mod',
+       'diagonal': 'diag'}          # np.diagonal(M) of a matrix (the only legal operand) is np.diag(M)
 _NP_BINOPS = {'multiply': ast.Mult, 'add': ast.Add, 'subtract': ast.Sub, 'divide': ast.Div, 'true_divide': ast.Div, 'matmul': ast.MatMult, 'dot': ast.MatMult}
 REAL_HEADS = {'abs', 'real', 'imag', 'angle', 'floor', 'ceil', 'round', 'mod', 'num'}
 MAXDEPTH = 10
@@ -733,6 +734,13 @@ class Evaluator:
             if not flat: return False
         uniq = {}
         for v in flat: uniq.setdefault(repr(tkey(v)), v)
+        if kind == 'or' and len(uniq) > 1:
+            # identity implies equality:  a is b or a == b   is   a == b
+            eqs_ = [v.k[2] for v in uniq.values() if isinstance(v, Opq) and len(v.k) == 3 and v.k[0] == 'cmp' and v.k[1] == 'Eq' and isinstance(v.k[2], Poly)]
+            for k_, v in list(uniq.items()):
+                if isinstance(v, Opq) and len(v.k) == 3 and v.k[0] == 'is' and isinstance(v.k[1], Poly) and isinstance(v.k[2], Poly):
+                    d_ = v.k[1] - v.k[2]
+                    if any(same(d_, e_) or same(d_.neg(), e_) for e_ in eqs_): del uniq[k_]
         flat = [uniq[k] for k in sorted(uniq)]
         return flat[0] if len(flat) == 1 else Opq(kind, *flat)
 
@@ -1337,6 +1345,8 @@ class Evaluator:
 
     def getitem(s, v, k):
         if isinstance(v, Cond): return Cond(v.g, s.getitem(v.a, k), s.getitem(v.b, k))
+        if isinstance(v, Ref) and v.kind == 'npfun' and v.name == 'r_' and isinstance(k, (tuple, list)) and not any(isinstance(x_, (str, Opq)) and (isinstance(x_, str) or x_.k[:1] == ('slice',)) for x_ in k):
+            return s.npcall('hstack', [list(k)], {})              # np.r_[a, b, ...] joins its operands along the first axis (vectors: end to end)
         if isinstance(v, Opq) and len(v.k) == 2 and v.k[0] == 'globals' and isinstance(v.k[1], Ref) and isinstance(k, str):
             r_ = s.prog.resolve(v.k[1].mod, k)                # globals()['name'] is the module-level name
             if r_ is not None and r_[0] != 'unresolved': return s.lookup(k, {'__parent__': None}, v.k[1].mod)
@@ -1556,6 +1566,7 @@ class Evaluator:
         if attr == '__getitem__' and len(args) == 1 and not kw: return s.getitem(recv, args[0])                   # the method spelling of x[k]
         if attr == '__contains__' and len(args) == 1 and not kw: return s.compare(ast.In(), args[0], recv)
         if attr == 'conjugate' and not args: return s.npcall('conj', [recv], {})
+        if attr == 'diagonal' and not args and not kw and not isinstance(recv, (Rec, dict, list, tuple, str)): return s.npcall('diag', [recv], {})       # M.diagonal() is np.diag(M)
         if (s.self_class is not None and isinstance(recv, Poly) and recv.as_atom() == s.self_atom and ((attr.startswith('_') and not attr.startswith('__')) or attr in s.inline_self_methods)
                 and depth < s.depth_limit):
             # private helper of the class under analysis: inline it (public queries of `self` stay atoms)
@@ -1915,6 +1926,21 @@ class Evaluator:
                     return Comp((el_, idx_) if i_ == 0 else (idx_, el_), [(en_, [])], 'list')
         if name == 'dict' and len(args) == 1 and not kw and isinstance(a, Comp) and a.kind in ('list', 'gen') and isinstance(a.elt, (tuple, list)) and len(a.elt) == 2:
             return Comp(tuple(a.elt), a.gens, 'dict')
+        if name == 'next' and len(args) == 1 and not kw and isinstance(a, Comp) and a.kind in ('gen', 'list') and len(a.gens) == 1 and len(a.gens[0][1]) == 1 \
+                and isinstance(a.gens[0][0], Opq) and len(a.gens[0][0].k) == 2 and a.gens[0][0].k[0] == 'enumerate' and isinstance(a.elt, Poly):
+            # next(i for i, x in enumerate(xs) if x == v)  is  list(xs).index(v): the first position whose item equals v
+            xs_ = a.gens[0][0].k[1]; f_ = a.gens[0][1][0]
+            if a.elt.as_atom() == ('idx', 0, tkey(xs_)) and isinstance(f_, Opq) and len(f_.k) == 3 and f_.k[0] == 'cmp' and f_.k[1] == 'Eq' and isinstance(f_.k[2], Poly):
+                beta_ = s.elem_of(xs_, 0)
+                if isinstance(beta_, Poly):
+                    v_ = None
+                    for sg_ in (1, -1):
+                        cand = (f_.k[2] * Poly.const(sg_)) - beta_          # d = ±(beta - v)  ->  v = beta - (±d) ... solved for the side without beta
+                        cand = cand.neg()
+                        if repr(tkey(beta_)) not in repr(tkey(cand)): v_ = cand; break
+                    if v_ is not None:
+                        base_ = xs_ if isinstance(xs_, (list, tuple)) or (isinstance(xs_, Opq) and xs_.k and xs_.k[0] == 'list') else Opq('list', xs_)
+                        return s.call_method(base_, 'index', [v_], {}, mod, depth)
         if name == 'next' and len(args) == 2 and not kw and isinstance(a, Opq) and a.k and a.k[0] == 'guarded':
             # the first item whose filter holds, else the default
             out_ = args[1]
